@@ -390,6 +390,7 @@ func c10(ctx *Ctx) {
 		OnGenErr: func(sc *SCase, msg string) {
 			ctx.Run.Violation("cross-file-member-not-generated", fmt.Sprintf("%s: %s", sc.ID, firstLine(msg)), map[string]any{"kind": "gen", "files": sc.Case().Files, "args": sc.Case().Args, "cfg": sc.Case().Cfg})
 		}})
+	c10CrossFileMemberPackages(ctx)
 	// part C: loader state
 	for _, u := range c20Universes(0) {
 		if !strings.HasPrefix(u.name, "same-basename") {
@@ -499,6 +500,71 @@ func c10CasesB(level int) []SCase {
 }
 
 // c10LoaderState runs the same-basename universe through all histories (part C); the invariants are C20's.
+// c10CrossFileMemberPackages (part F): the documents of part E generated into one package and into two packages. Which package a document
+// is mapped to does not change what its references mean: the two-package run must succeed whenever the one-package run does, and the type
+// of x.other must carry the property of lib.json's Other ("o"), never that of main.json's own definition of the same name ("mine").
+func c10CrossFileMemberPackages(ctx *Ctx) {
+	type variant struct {
+		comp     string
+		ownOther bool
+		two      bool
+	}
+	var vs []variant
+	var jobs []genlab.Job
+	for _, comp := range []string{"allOf", "anyOf"} {
+		for _, ownOther := range []bool{false, true} {
+			for _, two := range []bool{false, true} {
+				lib := J{"$id": "https://example.com/lib", "type": "object", "properties": J{"z": J{"type": "string"}},
+					"$defs": J{"Thing": J{"type": "object", "properties": J{"other": J{"$ref": "#/$defs/Other"}, "t": J{"type": "integer"}}},
+						"Other": J{"type": "object", "properties": J{"o": J{"type": "string", "minLength": 2}}, "required": A{"o"}}}}
+				main := J{"$id": "https://example.com/main", "type": "object", "properties": J{"k": J{"type": "string"},
+					"x": J{comp: A{J{"$ref": "lib.json#/$defs/Thing"}, J{"type": "object", "properties": J{"extra": J{"type": "string"}}}}}}}
+				if ownOther {
+					main["$defs"] = J{"Other": J{"type": "object", "properties": J{"mine": J{"type": "integer"}}}}
+					main["properties"].(J)["mo"] = J{"$ref": "#/$defs/Other"}
+				}
+				cfg := genlab.Cfg{Package: "example.com/m/p", ResolveExt: []string{".json"}}
+				if two {
+					cfg.Mappings = []genlab.Mapping{{ID: "https://example.com/main", Package: "example.com/m/pa", Output: "pa/a.go"}, {ID: "https://example.com/lib", Package: "example.com/m/pb", Output: "pb/b.go"}}
+				}
+				gc := genlab.Case{ID: fmt.Sprintf("C10/F/cross-file-member/%s/own=%v/two-packages=%v", comp, ownOther, two),
+					Files: []genlab.File{{Path: "main.json", Content: space.Text(main)}, {Path: "lib.json", Content: space.Text(lib)}}, Args: []string{"main.json"}, Cfg: cfg}
+				jobs = append(jobs, genlab.Job{Op: "gen", Case: &gc, KeepOutputs: true})
+				vs = append(vs, variant{comp, ownOther, two})
+			}
+		}
+	}
+	resps, err := ctx.Pool.RunAll(jobs)
+	if err != nil {
+		harnessFail("pool: %v", err)
+	}
+	for i, r := range resps {
+		v := vs[i]
+		ctx.Run.Eval("cross-file-member-packages|"+jobs[i].Case.ID, v.two)
+		replay := map[string]any{"kind": "gen", "files": jobs[i].Case.Files, "args": jobs[i].Case.Args, "cfg": jobs[i].Case.Cfg}
+		failed := r.Res.Err != "" || r.Res.Panic != "" || r.Crash != "" || r.Hang
+		all := ""
+		for _, o := range r.Res.Outputs {
+			all += o
+		}
+		wrong := !failed && (!strings.Contains(all, `json:"o"`) && !strings.Contains(all, `json:"o,`))
+		switch {
+		case !v.two && (failed || wrong):
+			ctx.Run.Violation("cross-file-member:one-package", fmt.Sprintf("%s: %s", jobs[i].Case.ID, firstLine(r.Res.Err+r.Res.Panic+r.Crash)), replay)
+		case v.two && (failed || wrong):
+			what := "the run fails: " + firstLine(r.Res.Err+r.Res.Panic+r.Crash)
+			if wrong {
+				what = "no emitted type carries lib.json's property o: x.other is bound to another definition"
+			}
+			if ctx.Run.Listed("CROSS_FILE_MEMBER_LOCAL_REFS_IN_REFERRER") && (wrong || strings.Contains(r.Res.Err, "definition does not exist in schema")) {
+				ctx.Run.Known("CROSS_FILE_MEMBER_LOCAL_REFS_IN_REFERRER", jobs[i].Case.ID+": "+what, replay)
+			} else {
+				ctx.Run.Violation("cross-file-member:two-packages", fmt.Sprintf("%s: the same documents generate into one package, but mapped to two packages %s", jobs[i].Case.ID, what), replay)
+			}
+		}
+	}
+}
+
 func c10LoaderState(ctx *Ctx, u c20Universe, mp c20Mapping) {
 	cfg := mp.cfg(u.ids)
 	var jobs []genlab.Job
